@@ -138,6 +138,16 @@ func (e *Env) counted(rec useRec, c templ.Component) templ.Component {
 	})
 }
 
+// countedMany is counted for a component that renders several uses.
+func (e *Env) countedMany(recs []useRec, c templ.Component) templ.Component {
+	return templ.ComponentFunc(func(ctx context.Context, w io.Writer) error {
+		if !e.Static {
+			e.Uses = append(e.Uses, recs...)
+		}
+		return c.Render(ctx, w)
+	})
+}
+
 func (e *Env) buildC12(n *Node) templ.Component {
 	u := e.C12
 	x := e.Ext[n]
@@ -202,6 +212,31 @@ func (e *Env) buildC12(n *Node) templ.Component {
 		return e.counted(useRec{Kind: "classof", Css: en(x.Items...)}, corpus.ClassOf(anys))
 	case "classtwo":
 		return e.counted(useRec{Kind: "classtwo", Css: en(item(0), item(1))}, corpus.ClassTwo(item(0).toAny(u), item(1).toAny(u)))
+	case "bshape":
+		// a member of the seeded statement family: if / else, switch and for around buttons with
+		// handlers; each button that is rendered is a use
+		conds := shapeConds(x.Conds)
+		var recs []useRec
+		var walk func(ns []*shNode)
+		walk = func(ns []*shNode) {
+			for _, b := range ns {
+				switch b.K {
+				case "btn":
+					recs = append(recs, useRec{Kind: "bbtn", Scripts: []int{si(x.Ss[b.I])}, Marker: n.S})
+				case "if", "switch":
+					if conds[b.I] {
+						walk(b.Then)
+					} else {
+						walk(b.Else)
+					}
+				case "for":
+					walk(b.Body)
+					walk(b.Body)
+				}
+			}
+		}
+		walk(bshapeASTs[n.N%len(bshapeASTs)])
+		return e.countedMany(recs, corpus.BShapes[n.N%len(corpus.BShapes)](n.S, []templ.ComponentScript{sc(x.Ss[0]), sc(x.Ss[1])}, conds))
 	case "ashape":
 		// a member of the seeded attribute-list family: which handlers and classes the element
 		// ends up with follows from the condition bits
@@ -266,7 +301,7 @@ func genItem(t *kernel.Tape, depth int) Item {
 
 // genUseLeaf draws one use of a script, css class or once handle.
 func genUseLeaf(t *kernel.Tape, ext map[*Node]*nodeExt, nOnce int) *Node {
-	uses := []string{"rawscript", "rawscript", "rawscript", "text", "text", "usescript", "onclick", "ontwo", "oncond", "onhx", "classof", "classtwo", "classcond", "oncemark", "oncewith", "lit", "text", "ashape", "ashape", "ashape"}
+	uses := []string{"rawscript", "rawscript", "rawscript", "text", "text", "usescript", "onclick", "ontwo", "oncond", "onhx", "classof", "classtwo", "classcond", "oncemark", "oncewith", "lit", "text", "ashape", "ashape", "ashape", "bshape", "bshape"}
 	k := uses[t.Choose(len(uses), "usekind")]
 	n := &Node{K: k, N: t.Choose(16, "n"), B: t.Bool("b")}
 	x := &nodeExt{M: t.Choose(16, "m")}
@@ -278,6 +313,11 @@ func genUseLeaf(t *kernel.Tape, ext map[*Node]*nodeExt, nOnce int) *Node {
 		}
 	case "classtwo", "classcond":
 		x.Items = []Item{genItem(t, 1), genItem(t, 1)}
+	case "bshape":
+		n.N = t.Choose(len(bshapeASTs), "bshape")
+		n.S = fmt.Sprintf("b%d", t.Choose(1000, "bid"))
+		x.Ss = []int{t.Choose(16, "s0"), t.Choose(16, "s1")}
+		x.Conds = t.Choose(8, "conds")
 	case "ashape":
 		n.N = t.Choose(len(ashapeASTs), "ashape")
 		n.S = fmt.Sprintf("a%d", t.Choose(1000, "aid"))
@@ -347,6 +387,7 @@ var (
 	reOnCondT   = regexp.MustCompile(`<input\s+type="button"\s+onclick="([^"]*)"\s*/?>`)
 	reOnCondF   = regexp.MustCompile(`<input\s+type="button"\s+onfocus="([^"]*)"\s*/?>`)
 	reOnHx      = regexp.MustCompile(`<button\s+hx-on::click="([^"]*)"\s+type="button"\s*>b3</button>`)
+	reBBtn      = regexp.MustCompile(`<button\s+data-b="[^"]*"([^>]*)>bsh</button>`)
 	reAShape    = regexp.MustCompile(`<button\s+data-sh="[^"]*"([^>]*)>ash</button>`)
 	reOnceUse   = regexp.MustCompile(`<once-use>(h(\d+)-\d+)</once-use>`)
 	reOnceBody  = regexp.MustCompile(`<once-body>(h(\d+)-\d+)</once-body>`)
@@ -400,7 +441,7 @@ func checkC12(rc *kernel.RunCtx, k *kernel.Kernel, who string, doc string, uses 
 		return true
 	}
 	ok := match("classof", reClassOf) && match("classtwo", reClassTwo) && match("classcond", reClassCond) && match("onclick", reOnClick) &&
-		match("ontwo", reOnTwo) && match("oncond-t", reOnCondT) && match("oncond-f", reOnCondF) && match("onhx", reOnHx) && match("ashape", reAShape)
+		match("ontwo", reOnTwo) && match("oncond-t", reOnCondT) && match("oncond-f", reOnCondF) && match("onhx", reOnHx) && match("ashape", reAShape) && match("bbtn", reBBtn)
 	if !ok {
 		return
 	}
@@ -427,7 +468,7 @@ func checkC12(rc *kernel.RunCtx, k *kernel.Kernel, who string, doc string, uses 
 					return
 				}
 			}
-		case "ashape":
+		case "ashape", "bbtn":
 			for _, si := range l.rec.Scripts {
 				if !strings.Contains(l.val[0], `="`+u.Scripts[si].Call+`"`) {
 					fail("C12/use-call-wrong:ashape", "element %s has attributes %q, which lack the handler call %q", l.rec.Marker, l.val[0], u.Scripts[si].Call)
@@ -897,7 +938,9 @@ func keys(m map[string]bool) []string {
 
 func describeC12(n *Node, ext map[*Node]*nodeExt) string {
 	s := n.K
-	if x := ext[n]; x != nil && n.K == "ashape" {
+	if x := ext[n]; x != nil && n.K == "bshape" {
+		s += fmt.Sprintf("{%s; conds %v scripts %v}", describeShape(bshapeASTs[n.N%len(bshapeASTs)]), shapeConds(x.Conds), x.Ss)
+	} else if x != nil && n.K == "ashape" {
 		s += fmt.Sprintf("{%s; conds %v scripts %v classes %v}", describeShape(ashapeASTs[n.N%len(ashapeASTs)]), shapeConds(x.Conds), x.Ss, x.Items)
 	} else if x != nil && (len(x.Items) > 0 || n.K == "ontwo" || n.K == "oncond") {
 		s += fmt.Sprintf("{n=%d m=%d b=%v items=%v}", n.N, x.M, n.B, x.Items)
